@@ -15,6 +15,7 @@ pub fn model(tier: Tier, world: &str) -> Hist {
     roots.extend(migrated_shell_root(&w, &s0));
     roots.extend(emissions_root(&w, &s0));
     let mut alpha = Alphabet::standard(vec![0, 1], vec![0, 1]);
+    alpha.receivership = true;
     alpha.tokenless = true;
     alpha.collect = false;
     alpha.transfer = true;
